@@ -8,6 +8,7 @@ import (
 	"fmt"
 	"os"
 	"strings"
+	"time"
 
 	"ibcheck/eng"
 	"ibcheck/rep"
@@ -37,6 +38,7 @@ func main() {
 		fmt.Fprintln(os.Stderr, "usage: ibcheck -prop Cxx [-tier quick|thorough]")
 		os.Exit(2)
 	}
+	t0 := time.Now()
 	p, err := eng.Load(eng.LoadOpts{Dir: *repo})
 	if *dump != "" {
 		if err != nil {
@@ -52,7 +54,7 @@ func main() {
 	}
 	exit := 0
 	for _, id := range props {
-		r := rep.New(id, *tier, *verif)
+		r := rep.New(id, *tier, *verif, t0)
 		if err != nil {
 			r.Fatal("LOAD-FAILED %v", err)
 			if r.Finish() != 0 {
